@@ -407,6 +407,40 @@ def result_checked(body, cs, depth=0):
     return False
 
 
+def results_inspected_rule(chk, P, key, doc, select, allow, floor):
+    """Error discipline over a region: every call that returns a Result has its outcome inspected (?, match, is_ok/is_err, returned,
+    stored, passed on); `let _ = ...` / a dropped temporary is reported.  `allow` maps (regex on the enclosing function, callee name)
+    to the reason the outcome may be ignored there."""
+    def f():
+        n, used, bad = 0, set(), []
+        for b in P.bodies.values():
+            if not select(b) or b.kind.startswith(("Const", "Static", "AssocConst", "InlineConst")):
+                continue
+            for c in b.calls(normal_only=True):
+                if c.dest is None or "p" in c.dest:
+                    continue
+                if not re.match(r"(core::result::)?Result<", b.local_ty(c.dest["l"])):
+                    continue
+                n += 1
+                if result_checked(b, c):
+                    continue
+                row = [k for k in allow if re.search(k[0], b.key) and k[1] == c.callee.get("name")]
+                if row:
+                    used.add(row[0])
+                    continue
+                bad.append((b, c))
+        if n < floor:
+            return False, "only %d Result-returning call sites found (expected >= %d)" % (n, floor), [], None
+        if bad:
+            b, c = bad[0]
+            return False, ("%s discards the Result of %s at %s: a failure of that step is neither returned, counted nor acted on, and what "
+                           "follows runs as if it had succeeded" % (b.key, c.callee.get("name"), c.loc)), ["%s %s" % (x[0].key, x[1].loc) for x in bad], c.loc
+        stale = [k for k in allow if k not in used]
+        return True, "", ["%d Result-returning call sites inspected" % n] + ["ignored by design: %s / %s - %s" % (k[0], k[1], allow[k]) for k in sorted(used)] + \
+            (["allow rows with no site on this tree: %s" % stale] if stale else [])
+    chk.ob(key, doc, f)
+
+
 # ---- FromValue siblings: downcast first, then parse the value's text form ---------------------------------------
 
 def _rp1(P, body, o):
